@@ -133,6 +133,14 @@ class ConstantPropagationTransformer(Transformer):
 
         return o._rebuild(lhs=new_lhs, rhs=new_rhs)
 
+    def visit_CallStatement(self, o, **kwargs):
+        # The callee may redefine any variable that is passed as an actual argument
+        constants_map = kwargs.get('constants_map', {})
+        arguments = tuple(o.arguments) + tuple(arg for _, arg in o.kwarguments)
+        for var in FindVariables().visit(arguments):
+            invalidate_constants_map(var, constants_map)
+        return o
+
     def visit_Conditional(self, o, **kwargs):
         constants_map = kwargs.get('constants_map', {})
         mapper = ConstantPropagationMapper()
@@ -203,6 +211,12 @@ class ConstantPropagationTransformer(Transformer):
         else:
             for assign in assignments:
                 invalidate_constants_map(assign.lhs, constants_map)
+
+        # Variables passed to calls inside the loop body may have been redefined
+        for call in FindNodes(ir.CallStatement).visit(new_body):
+            arguments = tuple(call.arguments) + tuple(arg for _, arg in call.kwarguments)
+            for var in FindVariables().visit(arguments):
+                invalidate_constants_map(var, constants_map)
 
         invalidate_constants_map(o.variable, constants_map)
 
